@@ -5,7 +5,7 @@
    the sum of the elementary reaction terms. *)
 From Coq Require Import ZArith List Lia Arith Bool.
 Import ListNotations.
-Require Import Ring Sums Matrix Core Chain Sweep Slim SlimProof.
+Require Import Ring Sums Matrix Core Chain Sweep Slim SlimProof ConeProof.
 Open Scope cr_scope.
 
 (* 1. the block pattern [S L I M] / [[I],[M],[S L I],[J]] / [I;M;S;L] denotes
@@ -23,6 +23,21 @@ Theorem C12_reaction_colsum (R : cring) d (rs : list (@reaction1 R)) y :
   sum d (fun x => smat rs x y) = 0.
 Proof. exact (smat_colsum d rs y). Qed.
 Print Assumptions C12_reaction_colsum.
+
+(* 2b. off-diagonal entries of the elementary reaction matrices and of the two-cell super-core are sums of rates: they lie in
+       every additive cone P that contains 0 and the rates -- non-negative rates give non-negative off-diagonals *)
+Theorem C12_offdiag_single (R : cring) (P : R -> Prop) (P0 : P 0) (Padd : forall a b, P a -> P b -> P (a + b))
+        (rs : list (@reaction1 R)) x y :
+  x <> y -> Forall (fun q : reaction1 => let '(_, _, rate) := q in P rate) rs -> P (smat rs x y).
+Proof. exact (smat_offdiag_cone P P0 Padd rs x y). Qed.
+Print Assumptions C12_offdiag_single.
+
+Theorem C12_offdiag_pair (R : cring) (P : R -> Prop) (P0 : P 0) (Padd : forall a b, P a -> P b -> P (a + b))
+        (rs : list (@reaction2 R)) x1 y1 x2 y2 :
+  (x1 <> y1 \/ x2 <> y2) -> Forall (fun q : reaction2 => let '(_, _, _, _, rate) := q in P rate) rs ->
+  P (supercore rs x1 y1 x2 y2).
+Proof. exact (supercore_offdiag_cone P P0 Padd rs x1 y1 x2 y2). Qed.
+Print Assumptions C12_offdiag_pair.
 
 (* 3. Ulam (2-D): entries are transition counts (the code divides by the number of simulations and
       transposes: C01_smul, C01_transpose) *)
